@@ -151,8 +151,11 @@ class Check:
         return sr
 
     def deep(self) -> bool:
-        """Search depth: thorough when asked for, or whenever a tie is broken."""
-        return self.tier == 'thorough' or bool(self.broken_ties)
+        """Search depth: thorough when asked for, or whenever a tie is broken — until a concrete
+        unattributed failing input has been found (that is what the escalation is for)."""
+        if self.tier == 'thorough':
+            return True
+        return bool(self.broken_ties) and not self.failing
 
     def report(self, f: Failing, known_id: str | None = None) -> None:
         """Report a failing input; `known_id` if the caller attributed it to a listed finding."""
